@@ -37,7 +37,7 @@ class C09(Check):
     per_run_timeout = 240
     expected_probes = ["sim:sv", "sim:dm", "entry:simulate", "entry:run", "entry:steps", "feat:channel",
                        "feat:keyed-channel", "noise:constant", "noise:insertion", "noise:gate-like",
-                       "noise:with_noise-circuit", "noise:thermal", "noise:unitary-gate", "noise:device", "entry:sweep", "entry:mux-fdm", "feat:composite-noisy-gate", "feat:pauli-measure", "protocol:apply_mixture-checked", "protocol:factor-checked", "protocol:custom-apply-channel-checked", "protocol:apply_channel-checked", "order:spectator", "init:density-matrix", "init:vector", "draw:uniform-kraus", "draw:choice", "convert-checked",
+                       "noise:with_noise-circuit", "noise:thermal", "noise:unitary-gate", "noise:device", "entry:sweep", "entry:mux-fdm", "feat:composite-noisy-gate", "feat:pauli-measure", "protocol:apply_mixture-checked", "protocol:factor-checked", "protocol:moment-kraus-checked", "protocol:custom-apply-channel-checked", "protocol:apply_channel-checked", "order:spectator", "init:density-matrix", "init:vector", "draw:uniform-kraus", "draw:choice", "convert-checked",
                        "feat:reset", "boundary:fallback-branch"]
 
     def setup(self) -> None:
@@ -218,6 +218,61 @@ class C09(Check):
                                           f"{float(np.max(np.abs(got_rho - want_rho))):.3e}")
         ctx.probe("protocol:custom-apply-channel-checked")
 
+    def _moment_kraus_check(self, cirq, tape, ctx) -> None:
+        """cirq.kraus(moment) and Circuit._superoperator_() describe the moment's / circuit's channel: against the
+        product of the operations' own Kraus operators, embedded on their qubits by the reference's Space (qubits
+        of the operations in a tape-drawn order; a three-qubit gate, a two-qubit gate, one-qubit channels)."""
+        from engines import qref
+        n = 3 + tape.draw(2, "n")
+        qs = cirq.LineQubit.range(n)
+        order = tape.shuffle(list(range(n)), "qubit-order")
+        ops = []
+        if tape.chance(2, 3, "three-qubit-gate?"):
+            g3 = [cirq.TOFFOLI, cirq.CCZ ** 0.5, cirq.FREDKIN, cirq.ControlledGate(cirq.ISWAP ** 0.5),
+                  cirq.ControlledGate(cirq.CNOT, control_values=[0])][tape.draw(5, "gate3")]
+            ops.append(g3.on(*[qs[i] for i in order[:3]]))
+            rest = order[3:]
+        else:
+            g2 = [cirq.CNOT, cirq.ISWAP ** 0.5, cirq.CZ ** 0.25,
+                  cirq.ControlledGate(cirq.Y ** 0.5, control_values=[0])][tape.draw(4, "gate2")]
+            ops.append(g2.on(*[qs[i] for i in order[:2]]))
+            rest = order[2:]
+        for i in rest:
+            ch = [cirq.amplitude_damp(0.3), cirq.phase_damp(0.25), cirq.bit_flip(0.125),
+                  cirq.generalized_amplitude_damp(0.75, 0.5), cirq.T][tape.draw(5, "channel")]
+            if tape.chance(3, 4, "spectator-op?"):
+                ops.append(ch.on(qs[i]))
+        ops = tape.shuffle(ops, "op-order")
+        moment = cirq.Moment(ops)
+        mq = sorted(moment.qubits)
+        space = qref.Space(mq)
+
+        def super_of(op):
+            tg = [space.index[q] for q in op.qubits]
+            return sum(np.kron(k, k.conj()) for k in (space.embed(k0, tg) for k0 in cirq.kraus(op)))
+
+        want = np.eye(space.D ** 2, dtype=np.complex128)
+        for op in ops:
+            want = super_of(op) @ want
+        got = sum(np.kron(k, np.conj(k)) for k in (np.asarray(k0, dtype=np.complex128) for k0 in cirq.kraus(moment)))
+        if got.shape != want.shape or not np.allclose(got, want, atol=1e-7):
+            raise Violation(f"{P}-CONVERT", f"cirq.kraus({moment!r}) is not the channel of its operations on "
+                                            f"{[str(q) for q in mq]}: superoperator off by "
+                                            f"{float(np.max(np.abs(got - want))) if got.shape == want.shape else 'shape'}")
+        # a second moment with a channel on the first gate's first qubit; the circuit's superoperator composes
+        tail = cirq.Moment([cirq.amplitude_damp(0.5).on(ops[0].qubits[0])] if tape.chance(1, 2, "tail?") else [])
+        circuit = cirq.Circuit(moment, tail)
+        cq = sorted(circuit.all_qubits())
+        if cq == mq:
+            want_c = want
+            for op in tail.operations:
+                want_c = super_of(op) @ want_c
+            got_c = np.asarray(circuit._superoperator_(), dtype=np.complex128)
+            if got_c.shape != want_c.shape or not np.allclose(got_c, want_c, atol=1e-7):
+                raise Violation(f"{P}-CONVERT", f"Circuit._superoperator_() of {circuit!r} is not the composition of "
+                                                f"its operations' channels")
+        ctx.probe("protocol:moment-kraus-checked")
+
     def _factor_check(self, cirq, tape, ctx) -> None:
         """Product states factor: DensityMatrixSimulationState.factor / cirq.linalg factor_density_matrix (what the
         density-matrix simulator uses to take qubits out of a joint state again) with validation on, on a
@@ -379,6 +434,8 @@ class C09(Check):
             self._custom_apply_channel_check(cirq, tape, ctx)
         if tape.chance(1, 8, "factor?"):
             self._factor_check(cirq, tape, ctx)
+        if tape.chance(1, 6, "moment-kraus?"):
+            self._moment_kraus_check(cirq, tape, ctx)
         if tape.chance(1, 8, "mixture-of-parameterized?"):
             import sympy
             gsym = [cirq.PhasedXPowGate(phase_exponent=sympy.Symbol("a")), cirq.X ** sympy.Symbol("a"),
